@@ -665,6 +665,22 @@ func genC16(g *G) {
 		ob := append([]byte{0x3a, byte(len(entry))}, entry...)
 		g.EmitImpl(J{"op": "obs.decodebytes", "bytes": hexs(ob)}, "obs-nil-inner")
 	}
+	// the same inside large observations (a decoder that takes another path above some size must refuse them too)
+	for _, n := range []int{3, 300, 600, 2048, 9999} {
+		for _, hx := range []string{"", "0805"} {
+			inner, _ := hex.DecodeString(hx)
+			svs := map[uint32]*llo.LLOStreamValue{}
+			for k := 1; k < n; k++ {
+				svs[uint32(k)] = cdcMustSVMsg(llo.ToDecimal(decimal.New(int64(1000+k), -2)))
+			}
+			svs[uint32(n/2+100000)] = &llo.LLOStreamValue{Type: llo.LLOStreamValue_TimestampedStreamValue, Value: inner}
+			ob, err := proto.Marshal(&llo.LLOObservationProto{UnixTimestampNanoseconds: 5, StreamValues: svs})
+			if err != nil {
+				panic(err)
+			}
+			g.EmitImpl(J{"op": "obs.decodebytes", "bytes": hexs(ob), "mustReject": true}, "obs-nil-inner", fmt.Sprintf("obs-nil-inner-among-%d", n))
+		}
+	}
 	// negative zero decimals (implementation only): sign byte 3, empty magnitude
 	g.EmitImpl(J{"op": "sv.unbinary", "ty": "0", "value": "0000000003"}, "neg-zero")
 	// ---- off-chain config
@@ -860,6 +876,9 @@ func monC16(op J, res any) (viol []Violation, nontrivial bool) {
 			}
 		}
 	case "obs.decodebytes":
+		if ok && jBool(op["mustReject"]) {
+			bad("obs-nil-inner-accepted", "an observation holding a timestamped value without an inner value was accepted (nil values are documented as rejected)")
+		}
 		if ok {
 			if r["_reencode_err"] != nil {
 				bad("obs-decoded-not-encodable", fmt.Sprint(r["_reencode_err"]))
